@@ -265,10 +265,10 @@ def run_kani(prop, group_names, tier, timeout=1500, jobs=16, only=None, keep_scr
     repo = copy_repo(os.path.join(sd, "repo"))
     splice(repo, used_groups)
     if harness_timeout is None:
-        harness_timeout = int(os.environ.get("VERIF_HARNESS_TIMEOUT", "150" if tier == "quick" else "1200"))
+        harness_timeout = int(os.environ.get("VERIF_HARNESS_TIMEOUT", "150" if tier == "quick" else "600"))
     cmd = kani_cmd([h.full for h in selected], jobs=jobs, harness_timeout=harness_timeout)
     log("[kani] %s: %d harnesses: %s" % (prop, len(selected), " ".join(h.name for h in selected)))
-    rc, out, wall = run(cmd, cwd=repo, timeout=timeout, rss_gb=48)
+    rc, out, wall = run(cmd, cwd=repo, timeout=timeout, rss_gb=float(os.environ.get("VERIF_RSS_GB", "40")))
     write(os.path.join(CACHE, "logs", "kani-%s-%s.log" % (prop, tier)), out)
     info = {"cmd": " ".join(cmd), "wall": wall, "scratch": repo, "rc": rc}
     if rc is None:
